@@ -168,6 +168,8 @@ def gen_cases(rng, n_grid, examples=True, slow=False):
                 p['AddOn Electricity Gained 1'] = rng.choice([0, 5000000.0])
                 p['AddOn Heat Gained 1'] = rng.choice([0, 2000000.0])
                 p['AddOn Profit Gained 1'] = rng.choice([0, 0.5])
+        if rng.random() < 0.5:
+            geo.diversify(rng, p)
         cases.append((f'grid:{econ}/{eu}/{pl}/L{L}n{n}#{k}', p))
     return cases
 
